@@ -139,7 +139,7 @@ def gen_sentence(rng):
     if post.startswith('('):
         post = ' ' + post
     w = rng.choice(forms)
-    form = rng.choice(['shortcut', 'shortcut', 'full', 'collapsed', 'undefined'])
+    form = rng.choice(['shortcut', 'shortcut', 'full', 'collapsed', 'undefined', 'full_undefined'])
     shown = w
     if form == 'full':
         shown = ' '.join(rng.choice(SENT_WORDS[:6]) for _ in range(rng.randint(1, 2)))
@@ -149,6 +149,8 @@ def gen_sentence(rng):
     elif form == 'undefined':
         shown = w = 'no such label'
         ref = '[' + w + ']'
+    elif form == 'full_undefined':      # the text IS a defined label, the label is not: the reference must not fall back on its text
+        ref = '[' + w + '][no such label]'
     else:
         ref = '[' + w + ']'
     sentence = (pre + ref + post).strip(' ')
@@ -240,7 +242,7 @@ def run(ctx, only=None):
         ctx.count('reference_sentences')
         ctx.count('reference_sentences_' + form)
         i = sentence.index(ref)
-        if form == 'undefined':
+        if form in ('undefined', 'full_undefined'):
             want = '<p>%s</p>' % esc(sentence)
         else:
             want = '<p>%s<a href="%s"%s>%s</a>%s</p>' % (esc(sentence[:i]), dest, ' title="%s"' % title if title else '', esc(shown), esc(sentence[i + len(ref):]))
